@@ -113,6 +113,17 @@ class _Fn:
         return out
 
 
+def helper_roles(repo):
+    """python method name -> role name (gen_...) for the five helpers of the current source."""
+    text = translate(repo)
+    out = {}
+    lines = text.splitlines()
+    for i, l in enumerate(lines):
+        if l.startswith("(* LRI.") and i + 1 < len(lines) and lines[i + 1].startswith("Definition "):
+            out[l[len("(* LRI."):-len(" *)")]] = lines[i + 1].split()[1]
+    return out
+
+
 def translate(repo):
     path = os.path.join(repo, "boltons", "cacheutils.py")
     tree = ast.parse(open(path).read())
